@@ -51,7 +51,7 @@ func ruleU1(c *Ctx) {
 	if iff, ok := r.head.Instrs[len(r.head.Instrs)-1].(*ssa.If); ok {
 		if bo, ok := iff.Cond.(*ssa.BinOp); ok {
 			if ph, ok := bo.X.(*ssa.Phi); ok {
-				iN = ph.Comment
+				iN = phiName(ph)
 			}
 		}
 	}
